@@ -288,3 +288,65 @@ def editable_types(tier, seed):
 
 native_check("C10", "editable-types-are-registered-as-mutable", "enum", editable_types,
              doc="assumption of Env.__getitem__'s contract: only MutableSet/Sequence/Mapping values can be edited in place")
+
+
+# ---- bounded: per-command overlays reach exactly the stage they prefix (real cmds_to_specs + prep_env_subproc) -----------
+def overlay_alignment(tier, seed):
+    import itertools
+    from xonsh.built_ins import XSH
+    from xonsh.execer import Execer
+    from xonsh.procs import specs as S
+
+    XSH.load(execer=Execer(), inherit_env=True)
+    XSH.env["XONSH_INTERACTIVE"] = False
+    failures, n, nontrivial, samples = [], 0, 0, []
+    maxlen = 3 if tier == "quick" else 4
+    try:
+        for length in range(1, maxlen + 1):
+            for marks in itertools.product((False, True), repeat=length):
+                for bg in (False, True):
+                    n += 1
+                    cmds, envs = [], []
+                    for k in range(length):
+                        cmds.append(["echo", "x%d" % k])
+                        envs.append({"XV_OVERLAY": "stage%d" % k} if marks[k] else None)
+                        cmds.append("|")
+                        envs.append(None)
+                    if bg:
+                        cmds[-1] = "&"
+                    else:
+                        cmds.pop()
+                        envs.pop()
+                    specs = S.cmds_to_specs(cmds, captured="stdout", envs=envs)
+                    try:
+                        obs = None
+                        for k, sp in enumerate(specs):
+                            kw = {}
+                            sp.prep_env_subproc(kw)
+                            got = kw["env"].get("XV_OVERLAY")
+                            want = "stage%d" % k if marks[k] else None
+                            if got != want:
+                                obs = "stage %d is launched with XV_OVERLAY=%r, the command line says %r" % (k, got, want)
+                                break
+                        if any(marks):
+                            nontrivial += 1
+                        if obs and len(failures) < 5:
+                            failures.append({"clause": "a `$X=v cmd` overlay reaches exactly the stage it prefixes",
+                                             "inputs": {"overlay_on_stage": list(marks), "trailing_&": bg}, "observed": obs})
+                        elif not obs and len(samples) < 3 and length == 3 and any(marks):
+                            samples.append({"overlay_on_stage": list(marks), "trailing_&": bg})
+                    finally:
+                        for sp in specs:
+                            try:
+                                sp.close()
+                            except Exception:
+                                pass
+    finally:
+        XSH.unload()
+    return {"kind": "bounded", "evaluations": n, "distinct_nontrivial": nontrivial, "failures": failures, "exhaustive": False,
+            "bound": "pipelines of <= %d stages, an overlay on every subset of stages, with and without a trailing &" % maxlen,
+            "domain": "real cmds_to_specs + SubprocSpec.prep_env_subproc (swap + detype) on `echo` stages", "samples": samples}
+
+
+native_check("C10", "overlays-reach-the-stage-they-prefix", "bounded", overlay_alignment,
+             doc="real cmds_to_specs / prep_env_subproc with per-command overlays on small pipelines")
